@@ -64,7 +64,10 @@ func (m *Model) ValidMethod(meth string) bool {
 func (m *Model) HandleVerdict(pattern string, methods []string) (verdict int, why string) {
 	p, ok := ParsePattern(pattern, m.ICs)
 	if !ok {
-		return -1, "malformed pattern"
+		if PatternStatus(pattern, m.ICs) < 0 {
+			return -1, "malformed pattern"
+		}
+		return 0, "pattern syntax not settled by the documentation"
 	}
 	if len(methods) == 0 {
 		methods = anyMethods
